@@ -177,7 +177,9 @@ Inductive sys :=
 | SClose (p : path)
 | SRename (src dst : path)            (* rename(src, dst) *)
 | SWriteFail (p : path)               (* write(fd of p, ...) returning -1 (ENOSPC, EIO): nothing written *)
-| SUnlink (p : path).                 (* remove(p) *)
+| SUnlink (p : path)                  (* remove(p) *)
+| SCloseFail (p : path)               (* close() of p reporting an error (EIO ...): the descriptor is gone, the file is as it was *)
+| SRenameFail (src dst : path).       (* rename() failing: nothing changes *)
 
 (* One system call.  None = the call is impossible in this state (write to / close of a file that
    was never opened, rename of a missing file): a hazard outcome, proved unreachable for saves. *)
@@ -197,6 +199,8 @@ Definition fs_step (s : fs) (c : sys) : option fs :=
     end
   | SWriteFail p => match fs_get p s with Some _ => Some s | None => None end
   | SUnlink p => match fs_get p s with Some _ => Some (fs_set p None s) | None => None end
+  | SCloseFail p => match fs_get p s with Some _ => Some s | None => None end
+  | SRenameFail src dst => match fs_get src s with Some _ => Some s | None => None end
   end.
 
 Fixpoint fs_run (step : fs -> sys -> option fs) (script : list sys) (s : fs) : option fs :=
@@ -222,6 +226,12 @@ Definition tmp_write (c : sys) : bool :=
   match c with SWrite Tmp _ | SWriteFail Tmp => true | _ => false end.
 Definition script_failed (body : list sys) : list sys :=
   [SOpenTrunc Tmp] ++ body ++ [SClose Tmp; SUnlink Tmp].
+(* close() fails: the stream is in the failed state, the temporary is removed, no rename;
+   rename() fails: a warning, the temporary is removed *)
+Definition script_close_failed (chunks : list str) : list sys :=
+  [SOpenTrunc Tmp] ++ map (SWrite Tmp) chunks ++ [SCloseFail Tmp; SUnlink Tmp].
+Definition script_rename_failed (chunks : list str) : list sys :=
+  [SOpenTrunc Tmp] ++ map (SWrite Tmp) chunks ++ [SClose Tmp; SRenameFail Tmp Conf; SUnlink Tmp].
 (* as the harness provokes it: every write from the k-th on (k >= 1) fails; libstdc++ then issues
    one failing write per remaining std::endl and one for close() (observed, not relied upon by the
    theorems, which take any body) *)
